@@ -356,9 +356,24 @@ func (la *lockAnalysis) Solve() {
 		call   ssa.CallInstruction
 	}
 	callSites := map[*ssa.Function][]site{}
+	deferSites := map[*ssa.Function][]*ssa.Defer{}
 	for _, f := range la.funcs {
 		for _, b := range f.Blocks {
 			for _, ins := range b.Instrs {
+				if df, isDefer := ins.(*ssa.Defer); isDefer {
+					// a deferred function literal runs while the locks held at the defer statement (by the caller, or taken with
+					// an earlier `defer Unlock`) are still held
+					var lit *ssa.Function
+					if mc, ok := df.Call.Value.(*ssa.MakeClosure); ok {
+						lit, _ = mc.Fn.(*ssa.Function)
+					} else if f, ok := df.Call.Value.(*ssa.Function); ok && f.Parent() != nil {
+						lit = f
+					}
+					if lit != nil && inSet[lit] {
+						deferSites[lit] = append(deferSites[lit], df)
+					}
+					continue
+				}
 				call, ok := ins.(*ssa.Call)
 				if !ok {
 					continue
@@ -392,6 +407,9 @@ func (la *lockAnalysis) Solve() {
 		if len(callSites[f]) > 0 && !la.escapes(f) {
 			la.entry[f] = nil // TOP
 			la.hasCall[f] = true
+		} else if len(deferSites[f]) > 0 {
+			la.entry[f] = nil // TOP, narrowed by the defer sites below
+			la.hasCall[f] = true
 		} else {
 			la.entry[f] = lockset{}
 		}
@@ -408,7 +426,8 @@ func (la *lockAnalysis) Solve() {
 		atCall := map[ssa.Instruction]lockset{}
 		for _, f := range la.funcs {
 			la.flow(f, get(f), func(in ssa.Instruction, ls lockset) {
-				if _, ok := in.(*ssa.Call); ok {
+				switch in.(type) {
+				case *ssa.Call, *ssa.Defer:
 					atCall[in] = ls.clone()
 				}
 			})
@@ -422,6 +441,17 @@ func (la *lockAnalysis) Solve() {
 				ls, ok := atCall[s.call]
 				if !ok {
 					continue // unreachable call site
+				}
+				if m == nil {
+					m = ls.clone()
+				} else {
+					m = meet(m, ls)
+				}
+			}
+			for _, df := range deferSites[f] {
+				ls, ok := atCall[df]
+				if !ok {
+					continue
 				}
 				if m == nil {
 					m = ls.clone()
